@@ -119,6 +119,39 @@ def snp_events(run, tier, seed, tag):
                 ev["samples"] = samples
             events.append(ev)
             run.evaluations += 1
+        # mixed samples: isolated SNPs, but some samples also carry a second copy of the region around a site with
+        # another allele (a duplicated region, a contaminated assembly): they are ambiguous ('N') at that site, and
+        # the column is allowed only if the ambiguous + absent samples stay within -m. Well-formedness only.
+        for ci in range(10 if tier == "quick" else 100):
+            k = rng.choice([11, 15, 21, 31])
+            ns = rng.randint(4, 10)
+            sc = derive.lo_snp_scenario(rng, k, ns, rng.randint(8 * k, 500), rng.randint(1, 4))
+            if sc is None:
+                continue
+            samples = [[x["seq"] for x in recs] for recs in sc["samples"]]
+            anc = sc["ancestor"]
+            for si, p in enumerate(sc["sites"]):
+                for smp in rng.sample(range(ns), rng.choice([0, 1, 1, 2])):
+                    other = rng.choice([x for x in set(sc["alleles"][si]) if x != sc["alleles"][si][smp]])
+                    lo_, hi_ = max(0, p - k - rng.randint(0, 5)), min(len(anc), p + k + 1 + rng.randint(0, 5))
+                    samples[smp].append(anc[lo_:p] + other + anc[p + 1:hi_])
+            names = ["m%d_%d" % (ci, i) for i in range(ns)]
+            sb.reset()
+            missing = rng.choice([None, 0.0, 0.1, 0.15, 0.2, 0.4])
+            r = run_lo(sb, samples, names, k, "m%d" % ci, threads=rng.choice([1, 2, 4]), missing=missing)
+            if r.get("err", "").startswith("build failed"):
+                continue
+            refused = r["rc"] != 0 and "no entry node" in r.get("err", "")
+            mnum = 100 if missing is None else int(round(missing * 1000))
+            ev = {"ev": "lo.any", "id": 2000 + ci, "ctx": {"k": k, "missing": [mnum, 1000], "mixed": True},
+                  "refused": refused, "panic": "" if (r["rc"] == 0 or refused) else (r["err"] or "exit")}
+            ev["seqs"] = [b(s) for s in r["snps"][1]] if r["rc"] == 0 else []
+            if r["rc"] != 0:
+                ev["samples"] = samples
+            events.append(ev)
+            run.evaluations += 1
+            if r["rc"] == 0 and any(c not in "ACGT-" for s_ in r["snps"][1] for c in s_):
+                run.nontriv(["mixed", samples, k, mnum])
     finally:
         sb.close()
     return events
